@@ -115,7 +115,7 @@ pub fn expected(case: &Case) -> (Vec<Call>, Vec<Entry>) {
 /// values in source-addition order. For a key held by one source the statement allows the merge
 /// function to be called (with exactly that value) or not at all; nothing else may be called.
 pub fn check_calls(calls: &[Call], want: &[Call]) -> Result<(), String> {
-    let show = |c: &[Call]| c.iter().map(|c| (vlib::report::hex(&c.0), c.1.iter().map(|v| (v[1], v[3])).collect::<Vec<_>>())).collect::<Vec<_>>();
+    let show = |c: &[Call]| c.iter().map(|c| (vlib::report::hex(&c.0), c.1.iter().map(|v| (v.get(1).copied(), v.get(3).copied())).collect::<Vec<_>>())).collect::<Vec<_>>();
     let mut it = calls.iter().peekable();
     for w in want {
         let matches = it.peek().map(|c| *c == w).unwrap_or(false);
